@@ -256,9 +256,15 @@ func (v *PacketDslVisitorImpl) VisitFieldDefinitionWithAttribute(ctx *gen.FieldD
 			if padChar == "'\\x00'" {
 				padChar = "'\x00'"
 			}
-			f.Attr.(*model.FixedStringFieldAttribute).Padding = &model.Padding{
-				PadChar: padChar,
-				PadLeft: strings.Contains(fieldAttr.PaddingAttribute().PADDING_ATTR().GetText(), "left"),
+			// the attribute belongs to this field only: a MetaData-typed field shares its attribute
+			// object with the MetaData entry and with every other field of that type
+			fs := f.Attr.(*model.FixedStringFieldAttribute)
+			f.Attr = &model.FixedStringFieldAttribute{
+				Length: fs.Length,
+				Padding: &model.Padding{
+					PadChar: padChar,
+					PadLeft: strings.Contains(fieldAttr.PaddingAttribute().PADDING_ATTR().GetText(), "left"),
+				},
 			}
 		case fieldAttr.TagAttribute() != nil:
 			tagValue := fieldAttr.TagAttribute().DIGITS().GetText()
